@@ -227,6 +227,7 @@ _add("rcp:temperature-long", "REACTION_TEMPERATURE 1\n 10 15 20 25 30 35 40 45 5
 _add("rcp:pressure-long", "REACTION_PRESSURE 1\n 1 2 5 10 20 30 50 80 100 150 200 300 400\n", BASE_TOT + [("pressure", "PRESSURE"), ("rho", "RHO")])
 _add("ki:steps-long", "KINETICS 1\n Zero\n -formula KCl 1\n -m 0.002\n -parms 1e-6\n -tol 1e-8\n -steps 10 20 30 40 50 60 70 80 90 100 110 120 130\n", BASE_TOT + _KIN, kinetic=True)
 _add("rcp:mix", "MIX 1\n 1 0.6\n 2 0.8\n", BASE_TOT)
+_add("rcp:mix-thirds", "MIX 1\n 1 0.333333333333333\n 2 0.666666666666667\n", BASE_TOT)      # fractions that need every digit the text can carry
 _add("rcp:all",
      "REACTION 1\n CO2 1\n 1 3 mmol\nREACTION_TEMPERATURE 1\n 35 55\nREACTION_PRESSURE 1\n 5 50\nMIX 1\n 1 0.9\n 2 0.2\n"
      "EQUILIBRIUM_PHASES 1\n Calcite 0 0.01\nEXCHANGE 1\n X 0.01\n -equilibrate 1\n",
